@@ -467,6 +467,7 @@ def plan(tier, seed):
         depth = 5 if tier != "quick" else (4 if (ii - seed) % len(INITS) in (0, 2) else 3)
         for o1 in range(len(OPS)):
             shards.append(("bfs", init, o1, depth))
+    shards.append(("readonly",))
     k = seed % len(shards)
     return shards[k:] + shards[:k]
 
@@ -519,7 +520,56 @@ def bfs(init, first, depth, work, sh, max_states=400000):
         sh.sample({"init": init, "history": [OPNAMES[i] for i in hh]}, limit=1)
 
 
+def _run_readonly(desc):
+    """tables holding READ-ONLY columns (a memory-mapped file, a broadcast constant column, a view the owner protected): copy() and copyrows()
+    give tables of their own - no storage shared with the source, writable, and the in-place row operations work on them"""
+    from ImageD11 import columnfile as C
+    sh = Shard()
+    base = np.array([3.0, 1.0, 2.0, 5.0, 4.0])
+    owner = np.array([10.0, 20.0, 30.0, 40.0, 50.0])
+    ro_view = owner.view(); ro_view.flags.writeable = False
+    makers = {"broadcast constant column": lambda: {"a": base.copy(), "b": np.broadcast_to(np.float64(7.0), (5,))},
+              "protected view of the owner's array": lambda: {"a": base.copy(), "b": ro_view},
+              "every column read-only": lambda: {"a": np.frombuffer(base.tobytes(), float), "b": np.frombuffer(owner.tobytes(), float)}}
+    for mname, mk in makers.items():
+        for how in ("copy", "copyrows(list)", "copyrows(mask)", "copyrows(slice)"):
+            cf = C.colfile_from_dict(mk())
+            case = {"init": "readonly", "history": [mname, how]}
+            try:
+                if how == "copy":
+                    cp, rows = cf.copy(), list(range(5))
+                elif how == "copyrows(list)":
+                    cp, rows = cf.copyrows([0, 2, 4]), [0, 2, 4]
+                elif how == "copyrows(mask)":
+                    cp, rows = cf.copyrows(np.array([True, True, False, True, True])), [0, 1, 3, 4]
+                else:
+                    cp, rows = cf.copyrows(slice(1, 4)), [1, 2, 3]
+                want = {t: np.asarray(cf.getcolumn(t), float)[rows].copy() for t in cf.titles}
+                shared = [t for t in cf.titles for t2 in cf.titles if np.shares_memory(cp.getcolumn(t), cf.getcolumn(t2))]
+                if shared:
+                    sh.violation("readonly:%s:copy-shares-storage" % how, case, {"column": shared[0]})
+                    continue
+                cp.sortby("a")
+                order = np.argsort(want["a"], kind="stable")
+                if any(not np.array_equal(np.asarray(cp.getcolumn(t), float), want[t][order]) for t in cf.titles):
+                    sh.violation("readonly:%s:sortby-on-the-copy-does-not-permute-every-column" % how, case, {})
+                    continue
+                cp.getcolumn("b")[0] = -1.0
+                if owner[0] != 10.0 or np.asarray(cf.getcolumn("b"))[0] == -1.0:
+                    sh.violation("readonly:%s:write-to-the-copy-visible-in-the-source" % how, case, {})
+            except Exception as e:
+                sh.violation("readonly:%s:raises" % how, case, {"error": "%s: %s" % (type(e).__name__, str(e)[:200])})
+            sh.evaluations += 1
+            sh.nontrivial += 1
+            sh.states += 1
+    sh.outcomes.add(hash("readonly") & 0xFFFF)
+    sh.sample(case, limit=1)
+    return sh
+
+
 def run_shard(desc):
+    if desc[0] == "readonly":
+        return _run_readonly(desc)
     _, init, o1, depth = desc
     sh = Shard()
     work = os.path.join(os.path.dirname(os.path.dirname(os.path.dirname(os.path.abspath(__file__)))), ".work",
@@ -537,6 +587,10 @@ def replay(case):
     work = os.path.join(os.path.dirname(os.path.dirname(os.path.dirname(os.path.abspath(__file__)))), ".work",
                         "c17_replay_%d" % os.getpid())
     os.makedirs(work, exist_ok=True)
+    if case.get("init") == "readonly":
+        r = _run_readonly(("readonly",))
+        v = [x for x in r.violations if x["case"]["history"] == case["history"]]
+        return (not v), {"violations": v[:2]}
     try:
         h = [OPNAMES.index(n) for n in case["history"]]
         try:
